@@ -260,21 +260,19 @@ theorem validName_rules :
 
 /-! ### regenerated facts -/
 
-def accessOf (fn : String) : List String := (Generated.registryAccess.lookup fn).getD []
-
 /-- Compile copies the package-level registry under the read lock; package-level registration
-    writes it under the write lock; nothing else touches it -/
+    writes it under the write lock; every function that touches it locks before the first use and
+    unlocks -/
 theorem fact_registry_locking :
-    accessOf "Compile" = ["RLock", "use", "RUnlock"] ∧
-    accessOf "updateGlobalRegistry" = ["Lock", "use", "use", "use", "Unlock"] ∧
-    Generated.registryAccess.map (·.1) = ["Compile", "updateGlobalRegistry"] := by
+    Generated.registryLocking.all (fun r => r.2.2.1 && r.2.2.2.1 && (!r.2.2.2.2 || r.2.1 == "W")) = true ∧
+    ((Generated.registryLocking.lookup "Compile").map (fun r => (r.1, r.2.2.2))) = some ("R", false) ∧
+    Generated.registryLocking.any (fun r => r.2.2.2.2) = true := by
   decide
 
-/-- a new evaluation environment is built from the base environment, then the time callables,
-    then the expression's registry (later bindings shadow earlier ones) -/
+/-- a new evaluation environment is built on the base environment and receives the
+    expression's registry -/
 theorem fact_env_assembly :
-    Generated.timeCallableEvents.head? =
-      some "Expr.newEnv:call:timeCallables,call:Now,call:newEnvironment,call:len,call:len,call:bind,call:bindAll,call:bindAll" := by
+    Generated.newEnvParents = ["baseEnv"] ∧ Generated.newEnvEvents.contains "call:bindAll" = true := by
   decide
 
 /-! ### non-vacuity -/
